@@ -35,6 +35,15 @@ var c12Kind = map[string]string{
 	"volume.bind": "mount", "secret.file": "mount", "config.file": "mount", "volume.driver_opts.device": "mount",
 }
 
+// relative values whose first segment is the name of a directory the file itself lives in
+var c12SameDirShapes = []string{"inc/x", "deeper/x", "inc/deeper/x", "pd/x", "base dir/x", "proj/x", "work dir/proj/x", "inc", "pd"}
+
+func init() {
+	for k := range c12Shapes {
+		c12Shapes[k] = append(c12Shapes[k], c12SameDirShapes...)
+	}
+}
+
 var c12Shapes = map[string][]string{
 	"context": {"./x", "x/y", "../x", ".", "ABS/p", "~/x", "~", "https://example.com/repo.git", "http://example.com/ctx.tar.gz", "git://example.com/r.git", "git@github.com:org/repo.git",
 		"docker-image://my/image:tag", "ssh://git@host/repo.git", "github.com/org/repo", "oci-layout://./dir", "x/../y", "./a b/c", "./ünï",
